@@ -55,6 +55,9 @@ CHECKS["C05"] = dict(category="model_checking", technique="TLA+ Simple.View (exa
 CHECKS["C13"] = dict(category="model_checking", technique="TLA+ Simple.NormOk (exact rational on integer grids) checked by TLC trace validation over value sweeps",
    text="For every attribute data type (integer incl. degenerate and full range, scaled integer, single/double declared and undeclared) x limit settings (absent, partial, equal, type-mismatched, extreme, reset) x both switches, value sweeps (every integer of small ranges, lattice points) are read with the simple iterator; TLC requires (v-min)/(max-min) within one 1/65536 unit, clamped, 0 at min, 1 at max, 0 for degenerate ranges, never NaN/inf, monotone; unnormalised values unchanged.",
    note=SIMPLE_NOTE + " Limits of mixed kinds and overridden scaled-integer limits are unspecified by the statement (type range used).", ref="6 C13")
+CHECKS["C20"] = dict(category="exploration", technique="tool runs recorded as traces and validated by TLC against the Trace_Tools action specification (each tool = one action over Writer/Reader state)",
+   text="The real workspace binaries are built from /repo and run: XYZ->E57->XYZ over files covering all 8-bit colours, f32 extremes/subnormals/-0, short/empty/extra-column lines and several data packets (coordinates compared as f32 bit patterns, -0 = +0); check-crc on intact files and files with one altered bit per page (exit status); extract-xml vs raw_xml; unpack vs xml(), blob(), pointcloud_raw() (CSV cells parsed back). TLC validates the relations stated in the property.",
+   note="The tools have no state of their own; the specification is a thin relation per tool. Trusts TLC, the orchestrator's parsing of tool outputs, and lib-dump (what the library returns).", ref="6 C20")
 NOT_APPLICABLE = {}
 
 def main():
